@@ -249,4 +249,14 @@ theorem runSteps_outs (st : BuildSt) (elems : List Step) (h : (st.outs ++ output
       simp only [runSteps] at this
       rw [this]; simp [step, outputsOf]
 
+/-- The contracts of `Crypto` are satisfiable: a toy instance (proof = the data in clear). -/
+def toyCrypto : Crypto (Nat × Nat × Nat × Bytes) where
+  bulletProof := fun v k rn _ m => (v, k, rn, m)
+  verify := fun c p => c.value == p.1 && c.blind == p.2.1
+  rewind := fun c nonce p =>
+    if nonce = p.2.2.1 ∧ c.value = p.1 ∧ c.blind = p.2.1 then some (p.1, p.2.2.2) else none
+  verify_honest := by intros; simp
+  rewind_same := by intros; simp
+  rewind_other := by intro v k rn rn' pn m h; simp [h]
+
 end GV.Keys
